@@ -38,6 +38,7 @@ type nativeOutcome struct {
 	Reached   []string       `json:"reached"`
 	Observes  []sym.ObsValue `json:"observes"`
 	Leftover  int            `json:"tape_leftover"`
+	Notes     []string       `json:"notes,omitempty"`
 }
 
 type native struct {
@@ -293,7 +294,11 @@ func finish(o checkOpts, seed int, start time.Time, loadTime time.Duration, repo
 		p := filepath.Join(verifDir, "replay", fmt.Sprintf("%s-%s-%s.json", o.prop, rf.Harness, hex.EncodeToString(h[:4])))
 		os.WriteFile(p, b, 0o644)
 		violationLines = append(violationLines, fmt.Sprintf("VIOLATION property=%s replay=%s", o.prop, p))
-		fmt.Printf("  violated: harness=%s assert=%s kind=%s at=%s %s\n", rf.Harness, rf.Assert, rf.Kind, rf.At, rf.Msg)
+		notes := ""
+		if rf.Observed != nil && len(rf.Observed.Notes) > 0 {
+			notes = strings.Join(rf.Observed.Notes, "; ")
+		}
+		fmt.Printf("  violated: harness=%s assert=%s kind=%s at=%s %s %s\n", rf.Harness, rf.Assert, rf.Kind, rf.At, rf.Msg, notes)
 	}
 	// known findings
 	knownSeen := map[string]bool{}
